@@ -206,3 +206,30 @@ def regenerate_after_inplace_edit(s, envmap, how, graph):
     a = [float(v) for v in system.state.value]
     b = [float(v) for v in fresh.state.value]
     return all(abs(x - y) <= 1e-12 * max(abs(x), abs(y)) for x, y in zip(a, b)) and len(a) == len(b) and [int(c) for c in system.chemostats] == [int(c) for c in fresh.chemostats]
+
+
+def writes_stay_in_one_system(kind, how, s, cell):
+    """a per-entry write reaches exactly one entry of exactly ONE system: a second system that received the first one's state /
+    chemostat arrays (through the constructor: how 0; through the setters: how 1; as numpy int / float arrays of the very dtype
+    used internally: how 2; through copy(): how 3) owns its data - writing to either leaves the other untouched"""
+    import numpy as _np
+    a = grid_system(2, 2, 1, [0, 1, 2, 0]) if kind == 0 else graph_system([0, 1, 2, 0], [1.0, 8.0, 0.125, 27.0])
+    if how == 0:
+        b = RDSystem(a.network, a.space, state=a.state, chemostats=a.chemostats)
+    elif how == 1:
+        b = RDSystem(a.network, a.space)
+        b.state = a.state
+        b.chemostats = a.chemostats
+    elif how == 2:
+        b = RDSystem(a.network, a.space, state=UnitArray(_np.asarray(a.state.value, dtype=float), a.state.units), chemostats=_np.asarray(a.chemostats, dtype=_np.asarray(a.chemostats).dtype))
+    else:
+        b = a.copy()
+    n = 4
+    k = s * n + cell
+    for w, o in ((b, a), (a, b)):
+        st0, ch0 = [float(v) for v in o.state.value], [int(c) for c in o.chemostats]
+        w.set_state(s, cell, float(w.state.value[k]) + 5.5)
+        w.set_chemostat(s, cell, 1 - int(w.chemostats[k]))
+        if [float(v) for v in o.state.value] != st0 or [int(c) for c in o.chemostats] != ch0:
+            return False
+    return True
